@@ -484,3 +484,41 @@ def gen_variables(schema, tape, op, stream="vars", omit_pct=30, null_pct=15):
     if t.chance(10):
         out["unusedExtra"] = 1
     return out
+
+
+def mirror_post(doc, tape):
+    """Doc post-processing: one field that selects through fragments gets an aliased twin whose selection set is the
+    same in REVERSE order (the same fragments reached in two orders under one runtime type: response keys follow the
+    first appearance in each)."""
+    import copy as _copy
+    t = tape.sub("mirror")
+    if not t.chance(35):
+        return
+    cands = []
+
+    def walk(sels, container, is_sub_root):
+        for sel in sels:
+            if sel.kind == "field" and sel.sels:
+                if not is_sub_root and len(sel.sels) >= 2 and any(x.kind in ("spread", "inline") for x in sel.sels):
+                    cands.append((container, sel))
+                walk(sel.sels, sel, False)
+            elif sel.kind == "inline":
+                walk(sel.sels, sel, is_sub_root)
+
+    for d in doc.defs:
+        walk(d.sels, d, d.kind == "operation" and d.op == "subscription")
+    if not cands:
+        return
+    container, f = cands[t.draw(len(cands))]
+    twin = _copy.deepcopy(f)
+    n = 0
+    taken = {getattr(x, "alias", None) or getattr(x, "name", None) for x in container.sels}
+    while "mirror%d" % n in taken:
+        n += 1
+    twin.alias = "mirror%d" % n
+    twin.sels = list(reversed(twin.sels))
+    container.sels.append(twin)
+    probes = getattr(doc, "probes", None)
+    if isinstance(probes, dict):
+        probes["mirrored_selection_set"] = probes.get("mirrored_selection_set", 0) + 1
+
